@@ -33,7 +33,23 @@ Definition is_nil {A} (l : list A) : bool := match l with [] => true | _ => fals
 Definition zmem (x : Z) (l : list Z) : bool := existsb (Z.eqb x) l.
 
 (* [s; s+1; ...; s+n-1] *)
-Definition zseq (s n : Z) : list Z := map (fun k => s + Z.of_nat k) (seq 0 (Z.to_nat n)).
+Fixpoint zseq_go (n : nat) (s : Z) : list Z :=
+  match n with O => [] | S n' => s :: zseq_go n' (s + 1) end.
+Definition zseq (s n : Z) : list Z := zseq_go (Z.to_nat n) s.
+
+(* consecutive dates with their calendar fields, (day number, year, month, day): one conversion
+   for the first, then a step to the next day (what dateutil's mmask / mdaymask tables are) *)
+Definition cdate := (Z * Z * Z * Z)%type.
+Definition cd_day (c : cdate) : Z := fst (fst (fst c)).
+Definition cdate_of (d : Z) : cdate := let '(y, m, dd) := civil_from_days d in (d, y, m, dd).
+Definition next_cdate (c : cdate) : cdate :=
+  let '(d, y, m, dd) := c in
+  if dd <? dim y m then (d + 1, y, m, dd + 1)
+  else if m <? 12 then (d + 1, y, m + 1, 1)
+  else (d + 1, y + 1, 1, 1).
+Fixpoint cdates_go (n : nat) (c : cdate) : list cdate :=
+  match n with O => [] | S n' => c :: cdates_go n' (next_cdate c) end.
+Definition cdates (s n : Z) : list cdate := cdates_go (Z.to_nat n) (cdate_of s).
 
 (* ------------------------------------------------------------------------------------------ *)
 (* dateutil.rrule restricted to freq in {YEARLY..DAILY}, interval, bymonth, bymonthday,        *)
@@ -133,8 +149,8 @@ Definition nwdays (q : rr) (st : pstate) : list Z :=
            (nw_ranges q st).
 
 (* the big "if" of _iter that sets dayset[i] = None *)
-Definition day_ok (q : rr) (nwd : list Z) (d : Z) : bool :=
-  let '(y, m, dd) := civil_from_days d in
+Definition day_ok (q : rr) (nwd : list Z) (c : cdate) : bool :=
+  let '(d, y, m, dd) := c in
   (is_nil (q_bymonth q) || zmem m (q_bymonth q)) &&
   (is_nil (q_byweekday q) || zmem (weekday d) (q_byweekday q)) &&
   (is_nil (q_bynweekday q) || zmem d nwd) &&
@@ -152,7 +168,7 @@ Definition setpos_select (cand : list Z) (pos : list Z) : list Z :=
 Definition period_occ (q : rr) (st : pstate) : list Z :=
   let '(s, n) := period_span st in
   let nwd := nwdays q st in
-  let cand := filter (day_ok q nwd) (zseq s n) in
+  let cand := map cd_day (filter (day_ok q nwd) (cdates s n)) in
   let sel := if is_nil (q_bysetpos q) then cand else setpos_select cand (q_bysetpos q) in
   filter (fun d => q_dtstart q <=? d) sel.                        (* res >= self._dtstart *)
 
